@@ -228,6 +228,11 @@ func (m *Module) start(reports chan *report) {
 		}
 		// set status
 		if err != nil {
+			// Reset the status, as a module stuck in the starting state would
+			// keep its dependencies from ever being stopped.
+			m.Lock()
+			m.status = StatusOffline
+			m.Unlock()
 			m.Error(
 				fmt.Sprintf("%s:start-failed", m.Name),
 				fmt.Sprintf("Starting module %s failed", m.Name),
